@@ -6,6 +6,8 @@ M_ = 'Obj("core.matcher.Matcher")'
 ML = 'Obj("core.matcher.MatcherList")'
 
 
+from pyvc.contracts import native_helper
+
 @contract('core.matcher.Matcher.always')
 def _(c):
     c.inline()
@@ -379,14 +381,55 @@ def _(c):
     the generation text handed on consists of letters only, nothing but RuntimeError is raised"""
     c.prop('C18', 'C14')
     c.types(text='str').returns(M_)
-    c.raises('RuntimeError', when=None, exact=False)
+    # C14 (bounded, native only): a displayed label - decimal id followed by the incarnation letters - is never rejected ...
+    c.raises('RuntimeError', when=None, exact=False, native_when='not is_displayed_object_label(text)')
     c.ensures('fresh(result)')
+    # ... and selects exactly that incarnation of that id (seed C14-s6, `while` -> `if` in the letter scan, was missed without these two)
+    c.ensures('label_selects_its_incarnation(text, result)', 'a_displayed_label_selects_exactly_that_incarnation', native_only=True)
     c.modifies('new')
     lp = c.loop(0)
     lp.invariant('0 <= i and i <= len(text)', 'inside_the_text')
     lp.invariant('all((ord(text[k]) >= 97 and ord(text[k]) <= 122) or (ord(text[k]) >= 65 and ord(text[k]) <= 90) for k in range(i, len(text)))', 'letters_behind')
     lp.decreases('i')
-    c.native_gen(lambda rnd: (rnd.choice(['nil', '', 'a', 'ZZ', '5', '5a', '12ab', 'a1', '5é', '-1b', '*', '*a', '1.5', 'x5y']),))
+    c.native_gen(lambda rnd, it: ((['nil', '', 'a', 'ZZ', '5', '5a', '12ab', 'a1', '5é', '-1b', '*', '*a', '1.5', 'x5y', '7z', '7aa', '7az', '7ba', '7zz', '7aaa', '4278190080ab'][it],) if it < 21
+                                  else (_label_text(rnd),)))
+
+
+def _label_text(rnd):
+    # labels as ObjectBase.__str__ prints them (id + base-26 incarnation letters; generations around the 1/2/3-letter boundaries), or noise
+    if rnd.random() < 0.15:
+        return ''.join(rnd.choice('05a zZ*-.é') for _ in range(rnd.randint(0, 4)))
+    import core.letter_id_generator as lig
+    g = rnd.choice([0, 1, 24, 25, 26, 27, 51, 52, 675, 676, 701, 702, 703, rnd.randint(0, 20000)])
+    return str(rnd.choice([1, 2, 7, 10, 999, 0xff000000, rnd.randint(1, 2 ** 32 - 1)])) + lig.number_to_letter_id(g, False)
+
+
+@native_helper
+def is_displayed_object_label(text):
+    """decimal digits (ASCII, at least one) followed by zero or more ASCII lower-case letters: what an object label shows after the `@`"""
+    k = 0
+    while k < len(text) and text[k] in '0123456789':
+        k += 1
+    return k > 0 and all(ch in 'abcdefghijklmnopqrstuvwxyz' for ch in text[k:])
+
+
+@native_helper
+def label_selects_its_incarnation(text, m):
+    """C14: for a displayed label the matcher accepts (id, generation) pairs exactly for that id and that incarnation (independent base-26 reference)"""
+    if not is_displayed_object_label(text):
+        return True
+    k = 0
+    while k < len(text) and text[k] in '0123456789':
+        k += 1
+    obj_id, letters = int(text[:k]), text[k:]
+    if not letters:
+        return all(m.matches((obj_id, g)) for g in (0, 1, 26, 702)) and not m.matches((obj_id + 1, 0))
+    n = 0                                   # bijective base 26: a=0 .. z=25, aa=26 ...
+    for ch in letters:
+        n = n * 26 + (ord(ch) - 96)
+    gen = n - 1
+    others = {0, 1, 25, 26, 27, 51, 52, 701, 702, 703, gen - 1, gen + 1, gen + 26, gen * 26 + 26} - {gen, -1}
+    return m.matches((obj_id, gen)) and not any(m.matches((obj_id, g)) for g in others) and not m.matches((obj_id + 1, gen))
 
 
 @contract('core.matcher._parse_float_matcher')
